@@ -37,10 +37,12 @@ theorem checkURI_ok {now : Int} {o : UriOracle} {c : OPClient} {uri : String}
   · right
     rw [if_neg h1] at h
     cases hgs : c.globs with
-    | none => simp [OPClient.is_HasRedirectGlobs, hgs] at h
+    | none =>
+      simp only [OPClient.RedirectURIGlobs, hgs, Option.getD_none, Go.forRange] at h
+      split at h <;> simp at h
     | some gs =>
       refine ⟨gs, rfl, ?_⟩
-      simp only [OPClient.is_HasRedirectGlobs, OPClient.RedirectURIGlobs, hgs, Option.isSome_some, if_true, Option.getD_some] at h
+      simp only [OPClient.is_HasRedirectGlobs, OPClient.RedirectURIGlobs, hgs, Option.isSome_some, Bool.true_or, if_true, Option.getD_some] at h
       split at h
       · rename_i r hr
         subst h
